@@ -54,6 +54,9 @@ CHECKS = {
  "C16": dict(cat="other", tech="closed-form comparison of every scalar overload with the lane specification per scalar feature set; bisimulation vs the width-1 vector operation; UB obligations on unoptimised IR",
    text="(scalar-vs-spec) every scalar overload in avel/Scalar.hpp (bit functions, rotations, min/max/clamp, abs/neg_abs/negate, average/midpoint, keep/clear/blend, float classification/rounding/sqrt, mixed-sign cmp_*) under each scalar feature set is summarised from optimised IR and compared with the same lane specification the vector checks use (normal form, field partition, or exhaustive sign/order case analysis for cmp_*); (vec1-vs-scalar) the width-1 vector operation and the scalar overload have bisimilar bodies; (ub) on IR produced without any UB-exploiting pass (always-inline + inline + sroa only) every overflow-flagged arithmetic, shift amount and zero-undef count obligation is checked on the documented input lattice (a violated obligation is a refutation with the input).",
    note=TB + "; UB clause: absence of a violation on the boundary lattice is not a proof of UB-freedom, a violation found is real", ref="4/C16"),
+ "C15": dict(cat="other", tech="compile-fail/SFINAE-free existence (wrapper must compile), closed-form comparison with lane division incl. UB obligations, bisimulation of broadcast-from-scalar vs broadcast vector",
+   text="STRUCTURAL CLAIM. For every integer vector type x configuration: Denominator<V>(Denominator<scalar>(d)) must exist (a non-compiling wrapper is a violation), div by it is compared as a closed form with truncating division of every lane by d (witness-refutable: found 1/1 == 0 for the unsigned broadcast constructors) and its body with that of Denominator<V>(V{d}); value() must be public and return the divisors; / % /= %= bisimilar to div().quot/.rem. Per-lane exactness of the multiply-shift scheme itself is compared where interpreted and otherwise UNDECIDED (numeric core not decided).",
+   note=TB + "; one known finding (Denominator<int32_t>(INT32_MIN))", ref="4/C15"),
 }
 
 NA = {
